@@ -204,6 +204,11 @@ func runC15(c *sim.Ctx, t *testing.T) {
 			ops = append(ops, vfOp{kind: "state", mid: mid, msg: map[string]interface{}{"to": "captain", "update": map[string]interface{}{mid: map[string]interface{}{"state": st}}}})
 		case k == 2:
 			ops = append(ops, vfOp{kind: "spec", mid: mid, msg: map[string]interface{}{"to": "captain", "update": map[string]interface{}{mid: map[string]interface{}{"spec": map[string]interface{}{"inline": vfSpecJSON(1 + c.Intn(2, "version"))}}}}})
+		case k == 12 && exists[mid]:
+			// an update whose specification does not compile (fault): whatever the crew makes of
+			// it, what it reports has to be what it did
+			bad := map[string]interface{}{"name": "bad", "nodes": map[string]interface{}{"start": map[string]interface{}{"action": map[string]interface{}{"interpreter": "no-such-interpreter", "source": "return {};"}}}}
+			ops = append(ops, vfOp{kind: "badspec", mid: mid, msg: map[string]interface{}{"to": "captain", "update": map[string]interface{}{mid: map[string]interface{}{"spec": map[string]interface{}{"inline": bad}}}}})
 		case k == 3:
 			ops = append(ops, vfOp{kind: "delete", mid: mid, msg: map[string]interface{}{"to": "captain", "delete": []interface{}{mid}}})
 			exists[mid] = false
